@@ -560,6 +560,23 @@ func (i *Interpreter) ExecuteRoute(route *Route, request *Request) (*Response, e
 	// Always add request body to environment (even if nil)
 	// This ensures 'input' variable is always available in routes
 	inputValue := request.Body
+	// A declared input type with required fields needs a JSON object to find
+	// them in. An absent, malformed or non-object body reaches here as nil (or
+	// a non-map value); running the route with input = null would hand it data
+	// that violates its own declaration.
+	if namedType, ok := route.InputType.(NamedType); ok {
+		if typeDef, exists := i.typeDefs[namedType.Name]; exists && TypeDefHasRequiredFields(typeDef) {
+			if _, isObject := inputValue.(map[string]interface{}); !isObject {
+				err := fmt.Errorf("input validation failed: request body must be a JSON object with the required fields of %s", namedType.Name)
+				return &Response{
+					StatusCode: 400,
+					Body: map[string]interface{}{
+						"error": err.Error(),
+					},
+				}, err
+			}
+		}
+	}
 	if inputValue != nil {
 		// If route has an InputType declared, apply defaults and validate
 		if route.InputType != nil {
